@@ -1,5 +1,6 @@
 #!/bin/bash
-# usage: tryseeds.sh P1 P2 ...   -- runs tryseed.sh for each seeded/<P>/patch.diff in turn, summary to out/tryseeds.log
-for P in "$@"; do
-  echo "== $P"; /verif/tools/tryseed.sh $P /verif/seeded/$P/patch.diff 2>&1 | tail -6 | cut -c1-260
+# usage: tryseeds.sh ID1 ID2 ...   (ID = directory under seeded/; the property is the first three characters)
+for ID in "$@"; do
+  P=${ID:0:3}
+  echo "== $ID ($P)"; /verif/tools/tryseed.sh $P /verif/seeded/$ID/patch.diff 2>&1 | tail -5 | cut -c1-260
 done
